@@ -10,7 +10,7 @@ import frames
 import rtbuild
 from checks import c03, c12
 
-MODULE = "LWV.Props.C01"
+MODULE = ["LWV.Props.C01", "LWV.Props.C02Full"]
 PARSE_OPS = ("cls", "mp", "eap", "rtp", "it", "crc", "rssi")
 CORPUS_PROPS = ["C02", "C04", "C06", "C08", "C09", "C12"]
 RSSI_SIG = "rssi:buffer-shorter-than-announced-header"
